@@ -95,9 +95,12 @@ def run(ck, fx, cg, tier):
     ck.ob("R15.fsm", "scans format.chars() in order", loop_ok, loc(m), "loop over the format's Unicode scalar values: %s" % loop_ok)
     # sinks: the output parameter or a local String buffer that is written to the output afterwards
     out_lids = set()
-    for p in hb["params"]:
-        if p.get("k") == "Binding" and p["name"] == "output":
+    sink_name = None
+    ptys = [fx.tyname(t) or "" for t in hb.get("param_tys", [])]
+    for i, p in enumerate(hb["params"]):
+        if p.get("k") == "Binding" and (p["name"] == "output" or (i < len(ptys) and ptys[i] == "&mut W")):
             out_lids.add(p["lid"])
+            sink_name = p["lid"]
     args_lid = None
     for n, ps in walk_body(hb):
         if n.get("k") == "Block":
@@ -140,7 +143,7 @@ def run(ck, fx, cg, tier):
     # a buffered print must write the buffer to the output exactly once, after the loop
     if len(out_lids) > 1:
         flushes = [n for n, ps in walk_body(hb) if n.get("k") == "MethodCall" and n["name"] in ("write_str", "write_fmt") and local_of(n["recv"]) and
-                   hb["params"] and local_of(n["recv"])[1] == "output"]
+                   local_of(n["recv"])[0] == sink_name]
         ck.ob("R15.fsm", "buffer reaches the output once", len(flushes) == 1, loc(hb), "%d write(s) of the rendered text to the output" % len(flushes))
     _count(ck, fx)
     _render(ck, fx)
